@@ -46,7 +46,11 @@ func (p *Processor) NotifyRecharge(ueId string, rg int32) bool {
 	}
 
 	// If it is previosly set to debit mode due to quota exhausted, need to reverse to the reserve mode
+	// (the per-subscriber state is shared with in-flight charging requests)
+	ue.CULock.Lock()
 	ue.RatingType[rg] = charging_datatype.REQ_SUBTYPE_RESERVE
+	notifyUri := ue.NotifyUri
+	ue.CULock.Unlock()
 	reauthorizationDetails = append(reauthorizationDetails, models.ReauthorizationDetails{
 		RatingGroup: rg,
 	})
@@ -55,7 +59,7 @@ func (p *Processor) NotifyRecharge(ueId string, rg int32) bool {
 		ReauthorizationDetails: reauthorizationDetails,
 	}
 
-	p.SendChargingNotification(ue.NotifyUri, notifyRequest)
+	p.SendChargingNotification(notifyUri, notifyRequest)
 	return true
 }
 
